@@ -321,5 +321,13 @@ def importRegr {V} (rows : List (List V)) (labelFirst : Bool) (numOut maxBatch :
               labels := .reg (rows.map fun r => (r.drop outStart).take numOut) }
       else .error
 
+/-- `csvStringToDataImpl` (`Data<int>`, `Data<unsigned int>`, `Data<double>`): scalars → batches;
+every element is a 1-cell row here, the shape stays the default -/
+def importScalars {V} (vals : List V) (maxBatch : Nat) : Outcome V :=
+  match vals with
+  | [] => .ok (emptySet .none)
+  | _ => .ok { shape := none, lshape := none, batches := optimalBatchSizes vals.length maxBatch,
+               rows := vals.map fun v => Row.dense [v], labels := .none }
+
 end Csv
 end SharkVerif.Import
